@@ -636,6 +636,182 @@ func c16long(rep *vh.Report) {
 	rep.Eval(1)
 }
 
+// c16net: stream requests over real sockets: a TCP server endpoint with three ArduPilot peers, one of which leaves while
+// the others go on sending heartbeats (they were served moments ago: nothing is repeated for them), and a UDP broadcast
+// endpoint on which senders appear whose system / component ids are the node's own or differ from them in one of the two
+// (each is a sender like any other: seven requests and one event).
+func c16net(rep *vh.Report, seed uint64, idx int) {
+	if aborted() {
+		return
+	}
+	r := vh.Sub(seed, fmt.Sprintf("c16-net-%d", idx))
+	port := freeTCPPort()
+	bport := freeUDPPort()
+	bpc, err := net.ListenPacket("udp4", fmt.Sprintf("127.255.255.255:%d", bport))
+	if err != nil {
+		rep.Inconclusive("C16 net: cannot listen on the loopback broadcast address: " + err.Error())
+		return
+	}
+	defer bpc.Close()
+	ownSys, ownComp := byte(10+r.Intn(200)), byte(1+r.Intn(3))
+	node := &gomavlib.Node{Endpoints: []gomavlib.EndpointConf{
+		gomavlib.EndpointTCPServer{Address: fmt.Sprintf("127.0.0.1:%d", port)},
+		gomavlib.EndpointUDPBroadcast{BroadcastAddress: fmt.Sprintf("127.255.255.255:%d", bport), LocalAddress: fmt.Sprintf("127.0.0.1:%d", bport)},
+	}, Dialect: testDialect, OutVersion: gomavlib.V2, OutSystemID: ownSys, OutComponentID: ownComp, HeartbeatDisable: true, StreamRequestEnable: true, StreamRequestFrequency: 2, IdleTimeout: 5 * time.Second}
+	if err := node.Initialize(); err != nil {
+		rep.Inconclusive("C16 net: " + err.Error())
+		return
+	}
+	var events, closes int64
+	done := make(chan struct{})
+	go func() {
+		defer close(done)
+		for e := range node.Events() {
+			switch e.(type) {
+			case *gomavlib.EventStreamRequested:
+				atomic.AddInt64(&events, 1)
+			case *gomavlib.EventChannelClose:
+				atomic.AddInt64(&closes, 1)
+			}
+		}
+	}()
+	// requests seen per (link, target system, target component)
+	type key struct {
+		link      string
+		sys, comp byte
+	}
+	var mu sync.Mutex
+	per := map[key]int{}
+	count := func(link string, buf []byte) []byte {
+		for len(buf) > 0 {
+			f, ln, st := ref.ParseAt(buf, 0)
+			if st != ref.ParseOK {
+				break
+			}
+			if f.MsgID == 66 && len(f.Payload) >= 4 {
+				mu.Lock()
+				per[key{link, f.Payload[2], f.Payload[3]}]++
+				mu.Unlock()
+			}
+			buf = buf[ln:]
+		}
+		return buf
+	}
+	total := func() int64 {
+		mu.Lock()
+		defer mu.Unlock()
+		n := 0
+		for _, c := range per {
+			n += c
+		}
+		return int64(n)
+	}
+	go func() {
+		buf := make([]byte, 2048)
+		for {
+			n, _, err := bpc.ReadFrom(buf)
+			if err != nil {
+				return
+			}
+			count("broadcast", append([]byte(nil), buf[:n]...))
+		}
+	}()
+	// three TCP peers
+	var conns []net.Conn
+	for i := 0; i < 3; i++ {
+		c, err := net.Dial("tcp4", fmt.Sprintf("127.0.0.1:%d", port))
+		if err != nil {
+			break
+		}
+		conns = append(conns, c)
+		link := fmt.Sprintf("tcp%d", i)
+		go func(c net.Conn) {
+			var acc []byte
+			tmp := make([]byte, 2048)
+			for {
+				n, err := c.Read(tmp)
+				acc = count(link, append(acc, tmp[:n]...))
+				if err != nil {
+					return
+				}
+			}
+		}(c)
+	}
+	defer func() {
+		for _, c := range conns {
+			c.Close()
+		}
+	}()
+	if len(conns) < 3 {
+		safeClose(rep, node)
+		<-done
+		return
+	}
+	tcpSys := []byte{201, 202, 203}
+	for i, c := range conns {
+		_, _ = c.Write(hbFrame(tcpSys[i], 1, 3, 0))
+	}
+	// broadcast senders: the node's own ids, and neighbours of them
+	bsend, err := net.Dial("udp4", fmt.Sprintf("127.0.0.1:%d", bport))
+	if err != nil {
+		safeClose(rep, node)
+		<-done
+		return
+	}
+	defer bsend.Close()
+	type sid struct{ sys, comp byte }
+	bs := []sid{{ownSys, ownComp}, {ownSys + 1, ownComp}, {ownSys, ownComp + 1}}
+	for _, x := range bs {
+		_, _ = bsend.Write(hbFrame(x.sys, x.comp, 3, 0))
+		time.Sleep(2 * time.Millisecond)
+	}
+	want := int64(7 * (len(tcpSys) + len(bs)))
+	waitFor(func() bool { return total() >= want }, total, 500*time.Millisecond)
+	first := total()
+	// one TCP peer leaves; the other two go on sending heartbeats
+	closesBefore := atomic.LoadInt64(&closes)
+	conns[1].Close()
+	waitFor(func() bool { return atomic.LoadInt64(&closes) > closesBefore }, func() int64 { return atomic.LoadInt64(&closes) }, 500*time.Millisecond)
+	for k := 0; k < 6; k++ {
+		_, _ = conns[0].Write(hbFrame(tcpSys[0], 1, 3, 0))
+		_, _ = conns[2].Write(hbFrame(tcpSys[2], 1, 3, 0))
+		for _, x := range bs {
+			_, _ = bsend.Write(hbFrame(x.sys, x.comp, 3, 0))
+		}
+		time.Sleep(15 * time.Millisecond)
+	}
+	waitFor(func() bool { return false }, total, 150*time.Millisecond)
+	if !safeClose(rep, node) {
+		return
+	}
+	<-done
+	rep.Eval(1)
+	rep.Count("sr_net_scenarios", 1)
+	rep.Distinct("sr-net", idx)
+	mu.Lock()
+	defer mu.Unlock()
+	if first < want {
+		rep.Observe(fmt.Sprintf("c16 net: %d of %d requests seen before the peer left", first, want))
+	}
+	for i, sys := range tcpSys {
+		if n := per[key{fmt.Sprintf("tcp%d", i), sys, 1}]; n != 7 {
+			what := "sr-count"
+			if n > 7 {
+				what = "sr-repeat"
+			}
+			rep.Violation("what="+what, fmt.Sprintf("TCP peer %d (system %d) of a server endpoint got %d stream requests, seven expected (peer 1 left after everybody had been served; peers 0 and 2 went on sending heartbeats)", i, sys, n), nil)
+		}
+	}
+	for _, x := range bs {
+		if n := per[key{"broadcast", x.sys, x.comp}]; n != 7 {
+			rep.Violation("what=sr-count", fmt.Sprintf("ArduPilot sender (%d,%d) on a UDP broadcast endpoint of node (%d,%d) got %d stream requests, seven expected", x.sys, x.comp, ownSys, ownComp, n), nil)
+		}
+	}
+	if ev := atomic.LoadInt64(&events); ev != int64(len(tcpSys)+len(bs)) {
+		rep.Violation("what=sr-event", fmt.Sprintf("%d stream-requested events for %d senders over a TCP server and a UDP broadcast endpoint", ev, len(tcpSys)+len(bs)), nil)
+	}
+}
+
 // c16fleet: a link that bridges a large fleet: 1500 distinct ArduPilot (system, component) senders on two channels within
 // a few seconds (well inside one 30 s period). Every one of them is a new sender: seven requests and one event each.
 func c16fleet(rep *vh.Report, seed uint64) {
@@ -756,6 +932,9 @@ func TestC16(t *testing.T) {
 	if shard == 0 {
 		c16noHeartbeats(rep)
 		c16fleet(rep, seed)
+		for i := 0; i < vh.Pick(2, 12); i++ {
+			c16net(rep, seed, i)
+		}
 	}
 	for i := 0; i < vh.Pick(60, 3000); i++ {
 		if i%nsh == shard {
